@@ -27,7 +27,7 @@ CLASSES = ["Exception", "OSError", "BaseException", "ConnectionRefusedError", "B
 
 
 def required_counters(tier):
-    return ["inject:call", "inject:after-sr", "inject:mid-body", "inject:close", "disconnect:RST", "disconnect:CLOSE",
+    return ["inject:call", "inject:after-sr", "inject:mid-body", "inject:close", "disconnect:RST", "disconnect:CLOSE", "disconnect:110",
             "close-events", "file-close-events", "outcome:500", "outcome:truncated", "probe-served", "class:Exception",
             "class:OSError", "class:BaseException", "expose:on", "expose:off", "logsock:on", "logsock:off",
             "disconnect-before-output", "disconnect-raced-application-output", "pipelined-file-teardowns"]
@@ -129,7 +129,11 @@ def run_case(case, strat=None, record_pilot=False):
                                   rid_of=lambda env, n: {"/probe": "probe", "/case2": "case2"}.get(env["PATH_INFO"], "case"))
     if case.get("disconnect"):
         kind, k = case["disconnect"]
-        w.net.faults[(0, "send", k)] = kind
+        if isinstance(kind, int):
+            # the peer is gone for good: every send from the k-th on fails with this errno
+            w.net.faults_from = {(0, "send"): (k, kind)}
+        else:
+            w.net.faults[(0, "send", k)] = kind
     out = {}
     done = w.Event()
 
@@ -255,7 +259,7 @@ def judge(case, o, acc):
                         "the second pipelined file was never closed after the first file's close() raised at teardown"))
         return out
     if disconnect:
-        acc.count("disconnect:" + disconnect[0])
+        acc.count("disconnect:" + str(disconnect[0]))
         return out
     # ---- what the client must see
     fail = I["fail"]
@@ -447,7 +451,7 @@ def run_shard(spec):
             o = run_case(base)
             sends = o["sends"]
             o["world"].close()
-            for kind in ("RST", "CLOSE"):
+            for kind in ("RST", "CLOSE", 110):  # 110 = ETIMEDOUT: the connection dies without a disconnect errno
                 for s in range(sends):
                     if spec["sample"] > 1 and sends > 6 and rng.random() > 0.6:
                         continue
